@@ -29,6 +29,9 @@ type scriptSource struct {
 	// hooks for schedules
 	onFetchAll func(ctx context.Context) error // called at the start of FetchAll (may block / cancel)
 	onFetch    func(ctx context.Context, pid peer.ID) error
+	// answerAtCall: Fetch decides its answer when the request arrives and delivers it after the hook returns (a
+	// slow source); otherwise the answer is what the source holds when the hook has returned
+	answerAtCall bool
 }
 
 func newScriptSource(name string) *scriptSource {
@@ -57,6 +60,13 @@ func (s *scriptSource) Fetch(ctx context.Context, pid peer.ID) (*model.ProviderI
 	s.mu.Lock()
 	s.oneCalls[pid]++
 	hook := s.onFetch
+	var early *model.ProviderInfo
+	atCall := s.answerAtCall
+	if atCall && !s.failing {
+		if v, ok := s.recs[pid]; ok {
+			early = s.mk(pid, v)
+		}
+	}
 	s.mu.Unlock()
 	if hook != nil {
 		if err := hook(ctx, pid); err != nil {
@@ -65,6 +75,9 @@ func (s *scriptSource) Fetch(ctx context.Context, pid peer.ID) (*model.ProviderI
 	}
 	s.mu.Lock()
 	defer s.mu.Unlock()
+	if atCall && !s.failing {
+		return early, nil
+	}
 	if s.failing {
 		return nil, fmt.Errorf("source %s is failing", s.name)
 	}
